@@ -86,8 +86,15 @@ def restore_real_locks():
 
 
 class Scheduler:
-    def __init__(self, nthreads, schedule, trace_prefix, opcode_files=(), step_timeout=20.0, max_steps=400000, defer=None):
+    def __init__(self, nthreads, schedule, trace_prefix, opcode_files=(), step_timeout=20.0, max_steps=400000, defer=None,
+                 sync_files=()):
         self.n = nthreads
+        # yield points that directly follow a return from a function defined in one of ``sync_files`` (caches, pools, locks,
+        # registries: the places where threads meet) are recorded per thread as ``sync_points[tid]`` (indexes into that
+        # thread's yield points); a sweep over them preempts a thread exactly where it has just touched shared state
+        self.sync_files = tuple(sync_files)
+        self.sync_points = [[] for _ in range(nthreads)]
+        self._sync_pending = [False] * nthreads
         # ``defer()`` true at a yield point = the running thread holds an uncooperative lock every other thread needs (C16: the
         # interpreter-wide import lock, held while meta-path finders run), so a real preemption there could not let another
         # managed thread advance; the pending switch is postponed to the next yield point where it is false
@@ -140,6 +147,9 @@ class Scheduler:
         tid = getattr(_LOCAL, 'tid', None)
         if tid is None or _ACTIVE[0] is not self:
             return
+        if self._sync_pending[tid]:
+            self._sync_pending[tid] = False
+            self.sync_points[tid].append(self.inside[tid])
         self.inside[tid] += 1
         self.steps += 1
         if self.steps > self.max_steps:
@@ -184,6 +194,10 @@ class Scheduler:
     def _local_trace(self, frame, event, arg):
         if event == 'line' or event == 'opcode':
             self.yield_point()
+        elif event == 'return' and self.sync_files and frame.f_code.co_filename.endswith(self.sync_files):
+            tid = getattr(_LOCAL, 'tid', None)
+            if tid is not None and _ACTIVE[0] is self:
+                self._sync_pending[tid] = True
         return self._local_trace
 
     def _body(self, tid, fn):
